@@ -10,6 +10,8 @@ fn main() {
         ("c17", "replay") => yv::c17::replay(&args),
         ("c14", "record") => yv::c14::record(&args),
         ("c14", "replay") => yv::c14::replay(&args),
+        ("c16", "record") => yv::c16::record(&args),
+        ("c16", "replay") => yv::c16::replay(&args),
         _ => { eprintln!("unknown command {:?}", &a[..2]); std::process::exit(2); }
     }
 }
